@@ -171,12 +171,17 @@ class Real:
     def launcher(self, ws):
         return self.InstantLauncher(self.LocalConnector(Path(ws) / "conn"))
 
-    def block(self, ws, name, body, before_with=None):
+    def block(self, ws, name, body, before_with=None, run_mode=None):
         """`with experiment(...)`: body(xp) returns how the block ends. Returns (entered, raised)"""
         entered = [False]
         raised = None
         try:
-            xp = self.experiment(Path(ws), name, port=-1, launcher=self.launcher(ws))
+            kw = {}
+            if run_mode:
+                from experimaestro.scheduler.workspace import RunMode
+
+                kw["run_mode"] = RunMode(run_mode)
+            xp = self.experiment(Path(ws), name, port=-1, launcher=self.launcher(ws), **kw)
             if before_with:
                 before_with()
             with xp:
@@ -560,6 +565,8 @@ class HistoryRunner:
             kind, p = op["op"], op.get("p", 0)
             if kind == "other":
                 self.other_run(idx, op)
+            elif kind == "neutral":
+                self.neutral_run(idx, op)
             elif p == 0:
                 if kind == "enter":
                     self.block0(idx)
@@ -655,6 +662,19 @@ class HistoryRunner:
 
         entered, raised = self.real.block(self.ws, OTHER, body)
         self.record(idx, "other-done", raised=raised, entered=entered)
+
+    def neutral_run(self, idx, op):
+        """a complete run of experiment `e` in run mode dry-run / generate, by process 0"""
+        objs = {}
+
+        def body(xp):
+            for k, x in op["jobs"]:
+                rel, o = self.real.submit(xp, objs, k, x, None, False)
+                self.relmap[rel] = job_label(k, x)
+            return op["how"]
+
+        entered, raised = self.real.block(self.ws, XPNAME, body, run_mode=op["mode"])
+        self.record(idx, "neutral-done", raised=raised, entered=entered)
 
     def agent_op(self, idx, op, kind, p):
         ag = self.agent(p)
@@ -871,6 +891,9 @@ def gen_history(rng, hid, agents_ok=True, rich=True):
         else:
             p = new_agent() if (agents_ok and rng.random() < 0.3) else 0
             entered = False
+        if not entered and rng.random() < 0.08 and p == 0 and rich:
+            ops.append({"op": "neutral", "mode": rng.choice(["dry-run", "generate"]), "how": rng.choice(["ok", "ok", "exc"]),
+                        "jobs": [rng.choice([("a", 0), ("a", 1), ("a", 2), ("b", 0), ("b", 1)]) for _ in range(rng.choice([1, 2, 3]))]})
         if not entered and rng.random() < 0.06 and p == 0 and rich:
             ops.append({"op": "other", "jobs": [("b", 100 + rng.randrange(3)) for _ in range(rng.choice([1, 2]))],
                         "how": rng.choice(["ok", "exc"])})
@@ -1011,6 +1034,14 @@ def evaluate(ctx, hist, res, with_model=True):
                 fail("other-experiment-modified-index", f"a run of experiment `{OTHER}` changed the index of `{XPNAME}`: {tr.last} -> {folders(obs)}")
             ctx.count("ops", "other")
             continue
+        if kind == "neutral":
+            # a dry run or a generate-only run is not a plan: the index stays as it is
+            if obs and (obs["jobs"] != tr.last["jobs"] or obs["bak"] != tr.last["bak"]):
+                fail(f"non-normal-run-modified-index:{op['mode']}", f"a {op['mode']} run of `{XPNAME}` changed its index: {tr.last} -> {folders(obs)}")
+            if obs:
+                check_protected(obs, f"{op['mode']} run")
+            ctx.count("ops", "neutral:" + op["mode"])
+            continue
         if r == "released":
             continue
         if r in ("inside", "pending-entered"):
@@ -1025,7 +1056,7 @@ def evaluate(ctx, hist, res, with_model=True):
             phase = "enter"
             if obs is not None:
                 nb = names(tr.before["jobs"]) | names(tr.before["bak"])
-                if obs["bak"] is None or not nb <= names(obs["bak"]):
+                if not nb <= names(obs["jobs"]) | names(obs["bak"]):
                     fail("enter-lost-links", f"entering: links {sorted(nb)} were indexed before, now {folders(obs)}")
             ctx.count("ops", "enter")
         elif r == "blocked":
@@ -1248,9 +1279,10 @@ def correspond(ctx):
         "fcntl/fasteners: mutual exclusion between processes and release on process death (exercised, not proved)",
         "local filesystem semantics of rename/unlink/symlink (atomic per call)",
     ]
-    n = ctx.scale(100, 2000)
+    n = ctx.scale(100, 1800)
     hists = [dict(h) for h in CORPUS] + [gen_history(ctx.rng, f"{ctx.seed}-{i}") for i in range(n)]
-    run_histories(ctx, hists)
+    for k in range(0, len(hists), 240):  # fresh workers per batch (a worker leaks a thread and a few fds per run)
+        run_histories(ctx, hists[k:k + 240])
 
 
 def search(ctx):
